@@ -12,6 +12,13 @@ lean/MxlVerif/MxlVerif/Generated/C08Tables.lean:
   logWithBase                            the unary branch gives AST_FUNCTION_LOG its base 10 as first child
   binaryNumpyOnly                        BINARY is not consulted for `math.<name>` calls
   iaSetter                               the libsbml setter used for the symbol of an initial assignment
+  bodyFirstReturn                        _handle_body returns at the first `return` and raises ValueError when there is none
+                                         (false: the older shape, every statement converted and the last one kept)
+  refFresh, refSuffix                    the name of the species reference of a computed coefficient: f"{compound_id}<suffix>",
+                                         made unique against set(model.ids) and the references written before by _free_reference
+  prefixes                               the prefix each kind of component id is escaped with (PAR, CPD, AR, IA, RXN)
+  exportOrder                            the order in which _model_to_sbml writes the component kinds
+(_convert_call must refuse keyword arguments before anything else: the model has no other reading of them.)
 
 Anything outside the shapes recognised here raises Unsupported: the run then reports the proof side as broken
 instead of keeping a stale table.
@@ -301,6 +308,117 @@ def _ia_setter(tree: ast.Module) -> str:
     return names.pop()
 
 
+def _body_first_return(tree: ast.Module) -> bool:
+    """shape of _handle_body"""
+    fn = _fn(tree, "_handle_body")
+    src = ast.unparse(ast.Module(body=[st for st in fn.body if not (isinstance(st, ast.Expr) and isinstance(st.value, ast.Constant))],
+                                 type_ignores=[]))
+    old = ("code = libsbml.ASTNode()\nfor stmt in stmts:\n    code = _convert_node(stmt)\nreturn code")
+    new = ("for stmt in stmts:\n    code = _convert_node(stmt)\n    if isinstance(stmt, ast.Return):\n        return code\n"
+           "msg = 'Model function cannot return `None`'\nraise ValueError(msg)")
+    if src == old:
+        return False
+    if src == new:
+        return True
+    raise Unsupported(f"_handle_body: body not recognised:\n{src}")
+
+
+def _keywords_refused(tree: ast.Module) -> None:
+    """_convert_call starts with `if len(node.keywords) > 0: ... raise NotImplementedError`"""
+    fn = _fn(tree, "_convert_call")
+    first = fn.body[0]
+    if not (isinstance(first, ast.If) and ast.unparse(first.test) in ("len(node.keywords) > 0", "node.keywords")
+            and isinstance(first.body[-1], ast.Raise) and "NotImplementedError" in ast.unparse(first.body[-1])
+            and not first.orelse):
+        raise Unsupported("_convert_call does not refuse keyword arguments first (the model has no reading of a call "
+                          "whose keyword arguments are dropped)")
+
+
+def _ref_name(tree: ast.Module) -> tuple[bool, str]:
+    """`reference = f"{compound_id}ref"` or `reference = _free_reference(f"{compound_id}ref", taken)` with
+    `taken = set(model.ids)` before the loop over the reactions"""
+    fn = _fn(tree, "_create_sbml_reactions")
+    assigns = [n for n in ast.walk(fn) if isinstance(n, ast.Assign) and isinstance(n.targets[0], ast.Name)
+               and n.targets[0].id == "reference"]
+    if len(assigns) != 1:
+        raise Unsupported("_create_sbml_reactions: assignment of `reference`")
+    v = assigns[0].value
+
+    def suffix(js) -> str:
+        if not (isinstance(js, ast.JoinedStr) and len(js.values) == 2 and isinstance(js.values[0], ast.FormattedValue)
+                and ast.unparse(js.values[0].value) == "compound_id" and isinstance(js.values[1], ast.Constant)):
+            raise Unsupported("reference name is not f\"{compound_id}<suffix>\"")
+        return js.values[1].value
+
+    if isinstance(v, ast.JoinedStr):
+        return False, suffix(v)
+    if not (isinstance(v, ast.Call) and isinstance(v.func, ast.Name) and v.func.id == "_free_reference"
+            and len(v.args) == 2 and ast.unparse(v.args[1]) == "taken" and not v.keywords):
+        raise Unsupported("reference name: neither an f-string nor _free_reference(f-string, taken)")
+    suf = suffix(v.args[0])
+    first = [st for st in fn.body if not (isinstance(st, ast.Expr) and isinstance(st.value, ast.Constant))]
+    if not (len(first) == 2 and ast.unparse(first[0]) == "taken = set(model.ids)" and isinstance(first[1], ast.For)):
+        raise Unsupported("_create_sbml_reactions: `taken = set(model.ids)` followed by the loop over the reactions")
+    fr = ast.unparse(ast.Module(body=[st for st in _fn(tree, "_free_reference").body
+                                      if not (isinstance(st, ast.Expr) and isinstance(st.value, ast.Constant))], type_ignores=[]))
+    if fr != "while name in taken:\n    name = f'{name}_'\ntaken.add(name)\nreturn name":
+        raise Unsupported(f"_free_reference: body not recognised:\n{fr}")
+    return True, suf
+
+
+def _prefixes(tree: ast.Module) -> dict[str, str]:
+    """every `_convert_id_to_sbml(id_=<name>, prefix=<P>)` call, per creating function: the prefix used for ids"""
+    def prefixes_in(fname: str, arg: str) -> set[str]:
+        out = set()
+        for n in ast.walk(_fn(tree, fname)):
+            if isinstance(n, ast.Call) and isinstance(n.func, ast.Name) and n.func.id == "_convert_id_to_sbml":
+                kw = {k.arg: k.value for k in n.keywords}
+                if set(kw) != {"id_", "prefix"} or n.args or not isinstance(kw["prefix"], ast.Constant):
+                    raise Unsupported(f"{fname}: _convert_id_to_sbml call shape")
+                if ast.unparse(kw["id_"]) == arg:
+                    out.add(kw["prefix"].value)
+        return out
+
+    def one(fname: str, arg: str, what: str, *, among=None) -> str:
+        ps = prefixes_in(fname, arg)
+        if among is not None:
+            ps &= among
+        if len(ps) != 1:
+            raise Unsupported(f"{fname}: prefix of {what}: {sorted(ps)}")
+        return ps.pop()
+
+    out = {
+        "param": one("_create_sbml_parameters", "name", "parameter id", among={"PAR"} | (prefixes_in("_create_sbml_parameters", "name") - {"IA"})),
+        "var": one("_create_sbml_variables", "name", "species id", among=prefixes_in("_create_sbml_variables", "name") - {"IA"}),
+        "rule": one("_create_derived_parameter", "name", "assignment rule"),
+        "rxn": one("_create_sbml_reactions", "name", "reaction id"),
+        "refId": one("_create_sbml_reactions", "reference", "species reference id"),
+        "refSpecies": one("_create_sbml_reactions", "compound_id", "species of a reference"),
+    }
+    ia_p = prefixes_in("_create_sbml_parameters", "name") - {out["param"]}
+    ia_v = prefixes_in("_create_sbml_variables", "name") - {out["var"]}
+    if ia_p != ia_v or len(ia_p) != 1:
+        raise Unsupported(f"prefix of initial assignments: {sorted(ia_p)} / {sorted(ia_v)}")
+    out["init"] = ia_p.pop()
+    if one("_create_sbml_derived_variables", "name", "assignment rule (derived variable)") != out["rule"]:
+        raise Unsupported("derived parameters and derived variables use different prefixes")
+    return out
+
+
+def _export_order(tree: ast.Module) -> list[str]:
+    stage = {"_create_sbml_parameters": ".params", "_create_sbml_derived_parameters": ".derivedParams",
+             "_create_sbml_variables": ".vars", "_create_sbml_derived_variables": ".derivedVars",
+             "_create_sbml_reactions": ".rxns"}
+    order = []
+    for st in _fn(tree, "_model_to_sbml").body:
+        if isinstance(st, ast.Expr) and isinstance(st.value, ast.Call) and isinstance(st.value.func, ast.Name) \
+                and st.value.func.id in stage:
+            order.append(stage[st.value.func.id])
+    if sorted(order) != sorted(stage.values()):
+        raise Unsupported(f"_model_to_sbml: component stages {order}")
+    return order
+
+
 def _lst(items, f) -> str:
     return "[" + ", ".join(f(i) for i in items) + "]"
 
@@ -336,6 +454,11 @@ def render(repo: Path) -> str:
     setter = _ia_setter(tree)
     logbase = _log_with_base(tree)
     bin_np = _binary_numpy_only(tree)
+    first_ret = _body_first_return(tree)
+    _keywords_refused(tree)
+    ref_fresh, ref_suffix = _ref_name(tree)
+    pre = _prefixes(tree)
+    order_m = _export_order(tree)
 
     def pair(kv):
         return f'("{kv[0]}", {kv[1]})'
@@ -352,6 +475,9 @@ inductive IfPart where | test | body | orelse
 deriving Repr, DecidableEq
 
 inductive Side where | reactant | product
+deriving Repr, DecidableEq
+
+inductive Stage where | params | derivedParams | vars | derivedVars | rxns
 deriving Repr, DecidableEq
 
 def unaryTable : List (String × MType) := {_lst(unary, pair)}
@@ -371,6 +497,17 @@ def arityChecked : Bool := {str(a1).lower()}
 def logWithBase : Bool := {str(logbase).lower()}
 def binaryNumpyOnly : Bool := {str(bin_np).lower()}
 def iaSetter : String := "{setter}"
+def bodyFirstReturn : Bool := {str(first_ret).lower()}
+def refFresh : Bool := {str(ref_fresh).lower()}
+def refSuffix : String := "{ref_suffix}"
+def prefixParam : String := "{pre['param']}"
+def prefixVar : String := "{pre['var']}"
+def prefixRule : String := "{pre['rule']}"
+def prefixInit : String := "{pre['init']}"
+def prefixRxn : String := "{pre['rxn']}"
+def prefixRefId : String := "{pre['refId']}"
+def prefixRefSpecies : String := "{pre['refSpecies']}"
+def exportOrder : List Stage := {_lst(order_m, b)}
 
 end Mxl.C08.Gen
 """
